@@ -5,3 +5,4 @@ from . import faults  # noqa: F401
 from . import asynceq  # noqa: F401
 from . import concurrent  # noqa: F401
 from . import storage  # noqa: F401
+from . import entry  # noqa: F401
